@@ -507,6 +507,28 @@ class GridArr:
             return list(range(*slice(*vals).indices(n))), False
         raise Raised('IndexError', ln, 'only integers and slices are valid indices', implicit=True)
 
+    def _fancy(self, k, R, C, node):
+        """coordinates addressed by integer-array indexing a[[rows], [cols]] (two lists of concrete ints), else None"""
+        if not (isinstance(k, tuple) and len(k) == 2 and isinstance(k[0], list) and isinstance(k[1], list)):
+            if isinstance(k, tuple) and any(isinstance(x, list) for x in k):
+                raise Unsupported("mixed integer-array / basic indexing of a grid")
+            return None
+        ln = getattr(node, 'lineno', None)
+        if len(k[0]) != len(k[1]):
+            if len(k[0]) == 1 or len(k[1]) == 1:
+                raise Unsupported("broadcast integer-array indexing")
+            raise Raised('IndexError', ln, 'shape mismatch: indexing arrays could not be broadcast together', implicit=True)
+        out = []
+        for r, c in zip(k[0], k[1]):
+            if r is None or c is None:
+                raise Raised('IndexError', ln, 'only integers, slices, ellipsis, None and integer arrays are valid indices', implicit=True)
+            if isinstance(r, bool) or isinstance(c, bool) or not isinstance(r, int) or not isinstance(c, int):
+                raise Unsupported("non-integer entries in integer-array indexing")
+            if not (-R <= r < R and -C <= c < C):
+                raise Raised('IndexError', ln, 'index out of bounds', implicit=True)
+            out.append((r % R, c % C))
+        return out
+
     def sym_getitem(self, interp, k, node=None):
         if not self.is_concrete():
             raise Unsupported("indexing an abstract grid")
@@ -517,6 +539,10 @@ class GridArr:
             k = (k, SliceV(None, None, None))
         if len(k) != 2:
             raise Raised('IndexError', getattr(node, 'lineno', None), 'too many indices', implicit=True)
+        fancy = self._fancy(k, R, C, node)
+        if fancy is not None:
+            # integer-array indexing a[[r...], [c...]]: a 1-D COPY of the addressed cells, in the order given (T3)
+            return GridFlat([self.cells[r][c] for r, c in fancy])
         rows, rint = self._axis(interp, k[0], R, node)
         cols, cint = self._axis(interp, k[1], C, node)
         if rint and cint:
@@ -538,6 +564,24 @@ class GridArr:
             k = (SliceV(None, None, None), SliceV(None, None, None))
         if not isinstance(k, tuple):
             k = (k, SliceV(None, None, None))
+        fancy = self._fancy(k, R, C, node) if len(k) == 2 else None
+        if fancy is not None:
+            # a[[r...], [c...]] = values: element by element in the order given; a cell addressed twice keeps the LAST value (T3)
+            if isinstance(value, GridFlat):
+                vals = list(value.items)
+            elif isinstance(value, list) and not (value and isinstance(value[0], list)):
+                vals = list(value)
+            elif isinstance(value, (GridArr, list)):
+                raise Unsupported("2-D value stored through integer-array indexing")
+            else:
+                vals = [value] * len(fancy)
+            if len(vals) != len(fancy):
+                if len(vals) == 1:
+                    vals = vals * len(fancy)
+                else:
+                    raise Raised('ValueError', ln, 'shape mismatch: value array could not be broadcast to indexing result', implicit=True)
+            self.write_cells(interp, [(r, c, v) for (r, c), v in zip(fancy, vals)], ln)
+            return
         rows, rint = self._axis(interp, k[0], R, node)
         cols, cint = self._axis(interp, k[1], C, node)
         tgt_shape = (len(rows), len(cols))
